@@ -42,6 +42,8 @@ const (
 
 const maxWorkers = 8192
 
+const goidSlots = 32768
+
 type worker struct {
 	id       string
 	goid     uint64
@@ -115,7 +117,8 @@ type Sim struct {
 	mu       sync.Mutex // guards everything below (never held across a yield)
 	workers  [maxWorkers]worker
 	nworkers int
-	goidTab  map[uint64]*worker
+	goidKeys [goidSlots]uint64
+	goidVals [goidSlots]*worker
 
 	held [256]heldLock // known-held mutexes
 	onces [64]uintptr  // sync.Once currently running
@@ -162,14 +165,17 @@ type heldLock struct {
 
 var active atomic.Pointer[Sim]
 
+//go:norace
 func cur() *Sim { return active.Load() }
 
 // Active reports whether a simulation is running in this process.
+//go:norace
 func Active() bool { return cur() != nil }
 
 const horizon = 1000 * time.Hour
 
 // goid parses the current goroutine id from runtime.Stack.
+//go:norace
 func goid() uint64 {
 	var buf [40]byte
 	n := runtime.Stack(buf[:], false)
@@ -185,17 +191,19 @@ func goid() uint64 {
 	return id
 }
 
+//go:norace
 func (s *Sim) self() *worker {
 	g := goid()
-	s.mu.Lock()
-	w := s.goidTab[g]
-	s.mu.Unlock()
+	ilock(&s.mu)
+	w := s.goidGet(g)
+	iunlock(&s.mu)
 	return w
 }
 
+//go:norace
 func (s *Sim) newWorker(id string) *worker {
-	s.mu.Lock()
-	defer s.mu.Unlock()
+	ilock(&s.mu)
+	defer iunlock(&s.mu)
 	if s.nworkers >= maxWorkers {
 		s.infraLocked("too many workers")
 		return nil
@@ -206,14 +214,16 @@ func (s *Sim) newWorker(id string) *worker {
 	return w
 }
 
+//go:norace
 func (s *Sim) bind(w *worker) {
 	g := goid()
-	s.mu.Lock()
+	ilock(&s.mu)
 	w.goid = g
-	s.goidTab[g] = w
-	s.mu.Unlock()
+	s.goidPut(g, w)
+	iunlock(&s.mu)
 }
 
+//go:norace
 func (s *Sim) infraLocked(msg string) {
 	if s.infra == "" {
 		s.infra = msg
@@ -221,6 +231,7 @@ func (s *Sim) infraLocked(msg string) {
 	s.aborted = true
 }
 
+//go:norace
 func (s *Sim) poke() {
 	select {
 	case s.ctlWake <- struct{}{}:
@@ -229,17 +240,21 @@ func (s *Sim) poke() {
 }
 
 // park blocks the calling worker until the controller releases it.
+//go:norace
 func (s *Sim) park(w *worker, site string, kind int, ptr uintptr) {
-	s.mu.Lock()
+	ilock(&s.mu)
 	w.site = site
 	w.waitKind = kind
 	w.waitPtr = ptr
 	w.state = stParked
-	s.mu.Unlock()
+	iunlock(&s.mu)
+	raceOff()
 	s.poke()
 	<-w.resume
+	raceOn()
 }
 
+//go:norace
 func (s *Sim) finish(w *worker) {
 	if r := recover(); r != nil {
 		if _, ok := r.(abortSentinel); !ok {
@@ -248,15 +263,18 @@ func (s *Sim) finish(w *worker) {
 			s.failWorkerPanic(w, r, string(stack))
 		}
 	}
-	s.mu.Lock()
+	ilock(&s.mu)
 	w.state = stDone
-	delete(s.goidTab, w.goid)
-	s.mu.Unlock()
+	s.goidDel(w.goid)
+	iunlock(&s.mu)
+	raceOff()
 	s.poke()
+	raceOn()
 }
 
 type abortSentinel struct{}
 
+//go:norace
 func panicFunc(stack string) string {
 	// first frame after the panic machinery that lies in the repository
 	lines := strings.Split(stack, "\n")
@@ -272,9 +290,10 @@ func panicFunc(stack string) string {
 	return "unknown"
 }
 
+//go:norace
 func (s *Sim) failWorkerPanic(w *worker, r interface{}, stack string) {
-	s.mu.Lock()
-	defer s.mu.Unlock()
+	ilock(&s.mu)
+	defer iunlock(&s.mu)
 	if s.viol == nil {
 		s.viol = &Violation{
 			Class:   "panic:" + panicFunc(stack),
@@ -290,6 +309,7 @@ func (s *Sim) failWorkerPanic(w *worker, r interface{}, stack string) {
 // Public worker-side API
 
 // Yield is a scheduling point: the worker parks until the controller picks it.
+//go:norace
 func Yield(site string) {
 	s := cur()
 	if s == nil {
@@ -306,16 +326,18 @@ func Yield(site string) {
 // foreign is called when a goroutine that is not a worker reaches a shim while a
 // simulation is active. The controller itself may call into repo code only through
 // non-blocking paths; anything else is an infrastructure error.
+//go:norace
 func (s *Sim) foreign(site string) {
 	if goid() == s.ctlGoid {
 		return // controller context: pass through
 	}
-	s.mu.Lock()
+	ilock(&s.mu)
 	s.infraLocked("non-worker goroutine reached yield point " + site)
-	s.mu.Unlock()
+	iunlock(&s.mu)
 }
 
 // BlockBegin marks the worker as being inside a real blocking operation.
+//go:norace
 func BlockBegin(site string) {
 	s := cur()
 	if s == nil {
@@ -325,15 +347,16 @@ func BlockBegin(site string) {
 	if w == nil {
 		return
 	}
-	s.mu.Lock()
+	ilock(&s.mu)
 	w.site = site
 	w.state = stBlocked
 	w.blocks++
-	s.mu.Unlock()
+	iunlock(&s.mu)
 }
 
 // BlockEnd ends a real blocking operation and yields so that the controller decides
 // what happens next.
+//go:norace
 func BlockEnd(site string) {
 	s := cur()
 	if s == nil {
@@ -347,6 +370,7 @@ func BlockEnd(site string) {
 }
 
 // Go starts f as a new worker (rewritten form of the go statement).
+//go:norace
 func Go(site string, f func()) {
 	s := cur()
 	if s == nil {
@@ -359,13 +383,14 @@ func Go(site string, f func()) {
 		go f()
 		return
 	}
-	s.mu.Lock()
+	ilock(&s.mu)
 	id := parent.id + "." + itoa(parent.nchild)
 	parent.nchild++
-	s.mu.Unlock()
+	iunlock(&s.mu)
 	s.spawn(id, site, false, "", f)
 }
 
+//go:norace
 func (s *Sim) spawn(id, site string, harness bool, name string, f func()) *worker {
 	w := s.newWorker(id)
 	if w == nil {
@@ -383,6 +408,7 @@ func (s *Sim) spawn(id, site string, harness bool, name string, f func()) *worke
 	return w
 }
 
+//go:norace
 func itoa(i int) string {
 	if i < 10 {
 		return string(rune('0' + i))
@@ -394,9 +420,9 @@ func itoa(i int) string {
 // Controller
 
 // Run executes main as worker "0" inside a synctest bubble under the controller.
+//go:norace
 func Run(t *testing.T, cfg Config, main func(env *Env)) (res Result) {
 	s := &Sim{cfg: cfg}
-	s.goidTab = make(map[uint64]*worker)
 	s.faults = map[string]int{}
 	s.probes = map[string]int{}
 	s.rng.seed(cfg.Seed)
@@ -409,35 +435,48 @@ func Run(t *testing.T, cfg Config, main func(env *Env)) (res Result) {
 		s.cfg.MaxSteps = 200000
 	}
 	s.hash = 1469598103934665603
+	if !cfg.Replay {
+		s.tape = make([]uint32, 0, 1<<14)
+	}
 	if !active.CompareAndSwap(nil, s) {
 		panic("simrt: nested Run")
 	}
 	defer func() {
 		active.Store(nil)
-		if r := recover(); r != nil {
-			msg := fmt.Sprint(r)
-			if strings.Contains(msg, "deadlock") {
-				// leftover goroutines of an aborted run; expected
-			} else {
-				panic(r)
-			}
-		}
 		res = s.result()
 	}()
-	synctest.Test(t, func(t *testing.T) {
-		s.ctlGoid = goid()
-		s.ctlWake = make(chan struct{}, 1) // must be created inside the bubble
-		s.start = time.Now()
-		env := &Env{s: s}
-		s.spawn("0", "main", true, "main", func() { main(env) })
-		s.controller()
-	})
+	body := func(tt *testing.T) {
+		defer func() {
+			if r := recover(); r != nil {
+				if !strings.Contains(fmt.Sprint(r), "deadlock") {
+					panic(r)
+				}
+				// leftover goroutines of an aborted run; expected
+			}
+		}()
+		synctest.Test(tt, func(t *testing.T) {
+			s.ctlGoid = goid()
+			s.ctlWake = make(chan struct{}, 1) // must be created inside the bubble
+			s.start = time.Now()
+			env := &Env{s: s}
+			s.spawn("0", "main", true, "main", func() { main(env) })
+			s.controller()
+		})
+	}
+	if RaceEnabled {
+		// a race report fails the (sub)test it occurs in; as a subtest it does not end the
+		// exploring test function
+		t.Run("sim", body)
+	} else {
+		body(t)
+	}
 	return
 }
 
+//go:norace
 func (s *Sim) result() Result {
-	s.mu.Lock()
-	defer s.mu.Unlock()
+	ilock(&s.mu)
+	defer iunlock(&s.mu)
 	r := Result{
 		Violation: s.viol, Steps: int(s.seq), Workers: s.nworkers, Switches: s.switches,
 		RandSeed: s.cfg.RandSeed, Data: s.data, SchedHash: s.hash, Trace: s.trace, StepLimit: s.stepLim, Infra: s.infra,
@@ -459,6 +498,7 @@ func (s *Sim) result() Result {
 	return r
 }
 
+//go:norace
 func stateName(st int32) string {
 	switch st {
 	case stParked:
@@ -473,6 +513,7 @@ func stateName(st int32) string {
 	return ""
 }
 
+//go:norace
 func (s *Sim) enabledLocked(buf []*worker) []*worker {
 	buf = buf[:0]
 	for i := 0; i < s.nworkers; i++ {
@@ -517,6 +558,7 @@ func (s *Sim) enabledLocked(buf []*worker) []*worker {
 	return buf
 }
 
+//go:norace
 func (s *Sim) liveLocked() (live, quiesceWaiters int) {
 	for i := 0; i < s.nworkers; i++ {
 		w := &s.workers[i]
@@ -530,7 +572,10 @@ func (s *Sim) liveLocked() (live, quiesceWaiters int) {
 	return
 }
 
+//go:norace
 func (s *Sim) controller() {
+	raceOff() // the controller must not order the workers' accesses
+	defer raceOn()
 	var ebuf []*worker
 	for {
 		synctest.Wait()
@@ -541,24 +586,24 @@ func (s *Sim) controller() {
 		for _, f := range s.onStep {
 			f()
 		}
-		s.mu.Lock()
+		ilock(&s.mu)
 		if s.aborted {
 			s.simElapsed = s.vnowLocked().Sub(s.start)
-			s.mu.Unlock()
+			iunlock(&s.mu)
 			return
 		}
 		ebuf = s.enabledLocked(ebuf)
 		live, qw := s.liveLocked()
 		if live == 0 {
 			s.simElapsed = s.vnowLocked().Sub(s.start)
-			s.mu.Unlock()
+			iunlock(&s.mu)
 			return
 		}
 		if int(s.seq) >= s.cfg.MaxSteps {
 			s.stepLim = true
 			s.aborted = true
 			s.simElapsed = s.vnowLocked().Sub(s.start)
-			s.mu.Unlock()
+			iunlock(&s.mu)
 			return
 		}
 		if len(ebuf) == 0 {
@@ -579,11 +624,11 @@ func (s *Sim) controller() {
 				}
 			}
 			if released {
-				s.mu.Unlock()
+				iunlock(&s.mu)
 				continue
 			}
 			if !nextDue.IsZero() {
-				s.mu.Unlock()
+				iunlock(&s.mu)
 				s.waitWake(nextDue.Sub(now))
 				continue
 			}
@@ -595,12 +640,12 @@ func (s *Sim) controller() {
 					quiet = w.within
 				}
 			}
-			s.mu.Unlock()
+			iunlock(&s.mu)
 			if s.waitWake(quiet) {
 				continue
 			}
 			// nothing happened for the whole quiet period
-			s.mu.Lock()
+			ilock(&s.mu)
 			s.quiesc++
 			s.skipped += quiet
 			if qw > 0 {
@@ -610,20 +655,20 @@ func (s *Sim) controller() {
 						w.waitKind = wNone
 					}
 				}
-				s.mu.Unlock()
+				iunlock(&s.mu)
 				continue
 			}
 			// nobody waits for quiescence: the remaining workers are stuck for ever
 			s.aborted = true
 			s.simElapsed = s.vnowLocked().Sub(s.start)
-			s.mu.Unlock()
+			iunlock(&s.mu)
 			return
 		}
 		// stall fault: let simulated time pass although workers could run
 		if s.cfg.StallP > 0 && s.chooseLocked(kStall, 2, s.cfg.StallP) == 1 {
 			d := stallDur(s.chooseLocked(kStallDur, len(stallDurs), 1))
 			s.stalls++
-			s.mu.Unlock()
+			iunlock(&s.mu)
 			s.waitWake(d)
 			continue
 		}
@@ -640,17 +685,19 @@ func (s *Sim) controller() {
 			s.trace = append(s.trace, fmt.Sprintf("%d %s %s c=%d/%d t=%v", s.seq, w.id, w.site, idx, len(ebuf), s.vnowLocked().Sub(s.start)))
 		}
 		w.state = stRunning
-		s.mu.Unlock()
+		iunlock(&s.mu)
 		w.resume <- struct{}{}
 	}
 }
 
 var stallDurs = []time.Duration{time.Microsecond, 50 * time.Microsecond, time.Millisecond, 20 * time.Millisecond, 150 * time.Millisecond, 2 * time.Second, 40 * time.Second}
 
+//go:norace
 func stallDur(i int) time.Duration { return stallDurs[i%len(stallDurs)] }
 
 // waitWake blocks the controller (letting the fake clock advance) until a worker
 // reaches a yield or d of simulated time has passed. Reports whether a worker arrived.
+//go:norace
 func (s *Sim) waitWake(d time.Duration) bool {
 	t := time.NewTimer(d)
 	defer t.Stop()
@@ -658,9 +705,9 @@ func (s *Sim) waitWake(d time.Duration) bool {
 	select {
 	case <-s.ctlWake:
 		if time.Now().After(before) {
-			s.mu.Lock()
+			ilock(&s.mu)
 			s.jumps++
-			s.mu.Unlock()
+			iunlock(&s.mu)
 		}
 		return true
 	case <-t.C:
@@ -668,6 +715,7 @@ func (s *Sim) waitWake(d time.Duration) bool {
 	}
 }
 
+//go:norace
 func hashStep(h uint64, id, site string) uint64 {
 	for i := 0; i < len(id); i++ {
 		h = (h ^ uint64(id[i])) * 1099511628211
@@ -677,4 +725,42 @@ func hashStep(h uint64, id, site string) uint64 {
 		h = (h ^ uint64(site[i])) * 1099511628211
 	}
 	return h
+}
+
+//go:norace
+func (s *Sim) goidGet(g uint64) *worker {
+	for i, n := int(g%goidSlots), 0; n < goidSlots; i, n = (i+1)%goidSlots, n+1 {
+		if s.goidKeys[i] == g {
+			return s.goidVals[i]
+		}
+		if s.goidKeys[i] == 0 {
+			return nil
+		}
+	}
+	return nil
+}
+
+//go:norace
+func (s *Sim) goidPut(g uint64, w *worker) {
+	for i, n := int(g%goidSlots), 0; n < goidSlots; i, n = (i+1)%goidSlots, n+1 {
+		if s.goidKeys[i] == 0 || s.goidKeys[i] == g {
+			s.goidKeys[i] = g
+			s.goidVals[i] = w
+			return
+		}
+	}
+	s.infraLocked("goroutine table full")
+}
+
+//go:norace
+func (s *Sim) goidDel(g uint64) {
+	for i, n := int(g%goidSlots), 0; n < goidSlots; i, n = (i+1)%goidSlots, n+1 {
+		if s.goidKeys[i] == g {
+			s.goidVals[i] = nil
+			return
+		}
+		if s.goidKeys[i] == 0 {
+			return
+		}
+	}
 }
